@@ -1,4 +1,4 @@
 SPECIFICATION Spec
-CONSTANTS NC = 3  NT = 3  MaxVeto = 1  LogBeforeWrite = TRUE  HonourVeto = TRUE  CloseConnOnVeto = TRUE  DrainOnEOF = TRUE  LateVetoCloses = TRUE  GenHist = FALSE
+CONSTANTS NC = 3  NT = 3  MaxVeto = 1  LogBeforeWrite = TRUE  HonourVeto = TRUE  CloseConnOnVeto = TRUE  DrainOnEOF = TRUE  LateVetoCloses = TRUE  HookMax = 2  PutbackFirst = TRUE  GenHist = FALSE
 INVARIANTS NoViolation NoViolationAtEnd
 CHECK_DEADLOCK FALSE
